@@ -312,6 +312,30 @@ def denoteAt (proj : Project) (s : St) (m : Nat) (cp : List Name) (name : Path) 
   | none => none
   | some ns => match denoteIn s ns name with | some v => identOf proj s v | none => none
 
+/-! ### names whose class steps stay in the class's own namespace -/
+
+/-- `y` is found in the namespace of `v` itself when `v` is a class (what `vars(v)` lists) -/
+def ownAttr (s : St) (v : Val) (y : Name) : Bool :=
+  match v with
+  | .cls h => (match s.heap[h]? with | some co => dhas co.ns y | none => false)
+  | _ => true
+
+def ownAttrs (s : St) : Val → List Name → Bool
+  | _, [] => true
+  | v, y :: ys => ownAttr s v y && (match getAttr s v y with | some w => ownAttrs s w ys | none => true)
+
+def ownIn (s : St) (ns : Ns) : Path → Bool
+  | [] => true
+  | x :: rest => match dget ns x with | some v => ownAttrs s v rest | none => true
+
+/-- every attribute step of `name` through a class finds the attribute in that class itself (no
+inherited member is involved) -/
+def pyOwn (proj : Project) (order : List Nat) (m : Nat) (cp : List Name) (name : Path) : Bool :=
+  let s := run proj order
+  match walkNs s (nsOf s m) cp with
+  | some ns => ownIn s ns name
+  | none => true
+
 /-- **what the name denotes under Python**: import every module of `order`, then evaluate the
 dotted `name` in the namespace of module `m` / class chain `cp` (first component in that
 namespace itself, the rest by attribute access) -/
